@@ -47,6 +47,9 @@ def run(chk, replay=None):
         if not o.get("joined") or not o.get("probe_served"):
             o = nodescen.scenario_late_join(binary, rng, writes=writes, threshold=threshold)   # liveness: retried once
             n_eval += 1
+        for f in o.get("fatal", []):
+            chk.classify("storage-fatal", "the Raft core of node %s was shut down by its storage layer: %s" % (f["node"], f["line"]),
+                         {"scenario": "late_join", "writes": writes, "threshold": threshold, "fatal": f, "ops": o.get("sample_ops")})
         if not o.get("joined") or not o.get("probe_served"):
             chk.classify("late-join:never-caught-up", "a late joiner was not caught up (joined=%s probe=%s)" % (o.get("joined"), o.get("probe_served")),
                          {"scenario": "late_join", "obs": {k: o[k] for k in o if k != "sample_ops"}})
@@ -69,7 +72,9 @@ def run(chk, replay=None):
         if o.get("probe_served_after_restart") is False:
             chk.classify("install:restart-stuck", "after its restart the joiner does not follow the log any more",
                          {"scenario": "late_join", "obs": {k: o[k] for k in ("joiner_metrics", "leader_metrics", "errors")}})
-        mj, ml = o.get("joiner_metrics") or {}, o.get("leader_metrics") or {}
+        # membership as persisted by the install: read back by the joiner's restart (the live metrics
+        # endpoint of a freshly joined node is a stale watch value and is not judged)
+        mj, ml = o.get("joiner_metrics_after_restart") or {}, o.get("leader_metrics_after_restart") or {}
         if mj and ml and sorted(mj["membership_config"]["members"]) != sorted(ml["membership_config"]["members"]):
             chk.classify("install:membership", "joiner membership %s differs from leader %s" % (mj["membership_config"], ml["membership_config"]),
                          {"scenario": "late_join", "joiner": mj, "leader": ml})
@@ -80,9 +85,15 @@ def run(chk, replay=None):
     o = nodescen.scenario_far_behind(binary, rng, threshold=30, fill=1700 if tier == "quick" else 2500)
     n_eval += 1
     nontrivial.add(("far_behind", "freeze"))
-    if not o.get("probe_served"):
+    for f in o.get("fatal", []):
+        chk.classify("storage-fatal", "the Raft core of node %s was shut down by its storage layer: %s" % (f["node"], f["line"]),
+                     {"scenario": "far_behind", "fatal": f})
+    if not o.get("probe_served") and not o.get("fatal"):
         o = nodescen.scenario_far_behind(binary, rng, threshold=30, fill=1700)
         n_eval += 1
+        for f in o.get("fatal", []):
+            chk.classify("storage-fatal", "the Raft core of node %s was shut down by its storage layer: %s" % (f["node"], f["line"]),
+                         {"scenario": "far_behind", "fatal": f})
     if not o.get("probe_served"):
         chk.notes.setdefault("inconclusive", []).append("frozen follower did not catch up within the wait (raft liveness, not judged)")
     else:
